@@ -24,7 +24,82 @@ const (
 	c01NonAuth  = "NonAuth"
 	c01Raw401   = "Raw401"
 	c01Dgram    = "Dgram"
+	// c01NonAuthCred + "(METHOD,authority,path)": a non-auth request in the given spelling that
+	// carries an ACCEPTED credential in Hysteria-Auth (see c01Spelling)
+	c01NonAuthCred = "NonAuthCred"
 )
+
+// c01Spelling is the (method, :authority, :path) of an HTTP/3 request. PROTOCOL.md defines the
+// authentication request as exactly method POST, host "hysteria", path "/auth"; a request that
+// differs from it in any of the three - also only by letter case, an explicit port, a trailing
+// slash - is a non-auth request: whatever Hysteria-Auth value it carries, it is not "an
+// authentication request accepted by the authenticator" and authorises nothing. (Dimension added
+// after the independently seeded change C01-12: the auth-endpoint test compared :authority
+// case-insensitively and ignored a port, so POST /auth to "hysteria:443" / "HYSTERIA" with accepted
+// credentials authenticated the connection.)
+type c01Spelling struct{ Method, Host, Path string }
+
+func (s c01Spelling) c01Kind() string {
+	return fmt.Sprintf("%s(%s,%s,%s)", c01NonAuthCred, s.Method, s.Host, s.Path)
+}
+
+func (s c01Spelling) c01IsAuth() bool {
+	return s.Method == "POST" && s.Host == "hysteria" && s.Path == "/auth"
+}
+
+func c01ParseSpelling(kind string) (c01Spelling, bool) {
+	if !strings.HasPrefix(kind, c01NonAuthCred+"(") || !strings.HasSuffix(kind, ")") {
+		return c01Spelling{}, false
+	}
+	f := strings.Split(kind[len(c01NonAuthCred)+1:len(kind)-1], ",")
+	if len(f) != 3 {
+		return c01Spelling{}, false
+	}
+	return c01Spelling{f[0], f[1], f[2]}, true
+}
+
+// the spellings alphabet: each component is the auth request's own value or differs from it only
+// by letter case, an explicit port / trailing dot or colon (authority), a trailing or doubled
+// slash (path), or is a neighbouring method.
+var (
+	c01SpellMethods = []string{"POST", "post", "Post", "PUT", "GET"}
+	c01SpellHosts   = []string{"hysteria", "hysteria:443", "HYSTERIA", "Hysteria", "Hysteria:8443", "hysteria.", "hysteria:"}
+	c01SpellPaths   = []string{"/auth", "/Auth", "/AUTH", "/auth/", "//auth"}
+)
+
+// c01Deviations: in how many of its three components the spelling differs from the auth request.
+func (s c01Spelling) c01Deviations() int {
+	n := 0
+	for _, same := range []bool{s.Method == "POST", s.Host == "hysteria", s.Path == "/auth"} {
+		if !same {
+			n++
+		}
+	}
+	return n
+}
+
+// c01Spellings: every combination of the three alphabets that differs from the auth request itself
+// in 1..maxDev components.
+func c01Spellings(maxDev int) []c01Spelling {
+	var out []c01Spelling
+	for _, m := range c01SpellMethods {
+		for _, h := range c01SpellHosts {
+			for _, p := range c01SpellPaths {
+				if sp := (c01Spelling{m, h, p}); !sp.c01IsAuth() && sp.c01Deviations() <= maxDev {
+					out = append(out, sp)
+				}
+			}
+		}
+	}
+	return out
+}
+
+// c01CredHeader: the headers of an auth request presenting cred.
+func c01CredHeader(cred string) http.Header {
+	h := http.Header{}
+	protocol.AuthRequestToHeader(h, protocol.AuthRequest{Auth: cred})
+	return h
+}
 
 type c01Outcome struct {
 	Kind    string
@@ -132,6 +207,19 @@ func c01Run(e *vsched.Exec, conns [][]string, disableUDP bool, masqStatus int) {
 					if err := cn.cl.dgram(uint32(k+1), "u-"+o.Tag+":53", []byte("d")); err != nil {
 						o.Err = err.Error()
 					}
+				default:
+					// a non-auth request in an unusual spelling presenting the accepted credential
+					sp, ok := c01ParseSpelling(kind)
+					if !ok {
+						e.Fail("harness: unknown event kind %q", kind)
+						break
+					}
+					resp, err := cn.cl.request(sp.Method, sp.Host, sp.Path, c01CredHeader("good"))
+					if err != nil {
+						o.Err = err.Error()
+					} else {
+						o.Status = resp.Status
+					}
 				}
 				o.End = len(r.Events)
 			})
@@ -142,7 +230,7 @@ func c01Run(e *vsched.Exec, conns [][]string, disableUDP bool, masqStatus int) {
 	// oracle
 	for _, cn := range cs {
 		addr := cn.cl.Addr()
-		firstOK := r.firstIndex(func(ev rigEvent) bool { return ev.Kind == "auth" && ev.Conn == addr && ev.OK })
+		firstOK := c01FirstAccepted(r, cn)
 		// (b) the authenticator is never consulted again for an authenticated connection
 		for i, ev := range r.Events {
 			if ev.Kind == "auth" && ev.Conn == addr && firstOK >= 0 && i > firstOK {
@@ -177,6 +265,13 @@ func c01Run(e *vsched.Exec, conns [][]string, disableUDP bool, masqStatus int) {
 			case c01NonAuth:
 				if o.Err == "" && o.Status == protocol.StatusAuthOK && wantMasq != protocol.StatusAuthOK {
 					e.Fail("non-auth request got 233 on %s", cn.name)
+				}
+			default: // c01NonAuthCred(...)
+				if _, spelled := c01ParseSpelling(o.Kind); !spelled {
+					break
+				}
+				if o.Err == "" && o.Status == protocol.StatusAuthOK && wantMasq != protocol.StatusAuthOK {
+					e.Fail("non-auth request %s carrying accepted credentials got 233 on %s", o.Kind, cn.name)
 				}
 			case c01Raw401:
 				if firstOK < 0 && (o.GotResp || (o.Stream != nil && o.Stream.ReadTotal > 0)) {
@@ -224,8 +319,7 @@ func c01Run(e *vsched.Exec, conns [][]string, disableUDP bool, masqStatus int) {
 	// that never authenticated was started when the connection ended, and drained the datagrams
 	// quic-go still hands out after the close)
 	for _, cn := range cs {
-		addr := cn.cl.Addr()
-		firstOK := r.firstIndex(func(ev rigEvent) bool { return ev.Kind == "auth" && ev.Conn == addr && ev.OK })
+		firstOK := c01FirstAccepted(r, cn)
 		if firstOK < 0 && cn.cl.Conn.Peer().RecvDatagramCalls != 0 {
 			e.Fail("(d) ReceiveDatagram issued on connection %s, which never authenticated, after it ended", cn.name)
 		}
@@ -246,6 +340,25 @@ func c01Run(e *vsched.Exec, conns [][]string, disableUDP bool, masqStatus int) {
 		}
 	}
 	r.shutdown(true)
+}
+
+// c01FirstAccepted: the index of the event at which connection cn became authenticated, or -1:
+// the first accepting verdict of the authenticator for this connection - provided the connection
+// sent an AUTH request with accepted credentials at all. A connection whose only carrier of the
+// accepted credential is a non-auth request (c01NonAuthCred) has not been authenticated, whatever
+// the authenticator was asked on its behalf. (Refined after the independently seeded change C01-12.)
+func c01FirstAccepted(r *rig, cn *c01Conn) int {
+	sentAuth := false
+	for _, o := range cn.outs {
+		if o.Kind == c01AuthOK || o.Kind == c01AuthOnce {
+			sentAuth = true
+		}
+	}
+	if !sentAuth {
+		return -1
+	}
+	addr := cn.cl.Addr()
+	return r.firstIndex(func(ev rigEvent) bool { return ev.Kind == "auth" && ev.Conn == addr && ev.OK })
 }
 
 func c01Multisets(alpha []string, max int) [][]string {
@@ -337,6 +450,30 @@ func c01Scenarios(thorough bool) []*explore.Scenario {
 			Body: func(e *vsched.Exec) { c01Sequential(e, noUDP, 2) }})
 	}
 	scs = append(scs, &explore.Scenario{Name: "1conn:AuthOK-then-8-repeated-auths", Quick: explore.Bounds{P: 0}, Thorough: explore.Bounds{P: 1}, Body: c01RepeatedAuth})
+	// the SPELLING of a non-auth request that carries accepted credentials (c01Spelling): one
+	// sequential run judging every spelling of the alphabet on a connection of its own, and
+	// concurrent mixes of one such request with a 0x401 stream / a datagram / a rejected auth request
+	// (quick: the two authority spellings with an explicit port / other letter case, and one path;
+	// thorough: every spelling that differs from the auth request in one component). Added after the
+	// independently seeded change C01-12 (:authority compared case-insensitively and without its port).
+	maxDev := 2 // quick: spellings differing from the auth request in at most two of the three components
+	if thorough {
+		maxDev = 3
+	}
+	scs = append(scs, &explore.Scenario{
+		Name:  fmt.Sprintf("each-on-its-own-conn:NonAuthCred(method,authority,path)-then-Raw401+Dgram:methods=%v,authorities=%v,paths=%v,deviating-components<=%d", c01SpellMethods, c01SpellHosts, c01SpellPaths, maxDev),
+		Quick: explore.Bounds{P: 0}, Thorough: explore.Bounds{P: 0}, Body: func(e *vsched.Exec) { c01NonAuthSpellings(e, maxDev) }})
+	for _, sp := range c01Spellings(1) {
+		dev := sp.c01Deviations()
+		sparse := sp == c01Spelling{"POST", "hysteria:443", "/auth"} || sp == c01Spelling{"POST", "HYSTERIA", "/auth"} || sp == c01Spelling{"POST", "hysteria", "/auth/"}
+		if dev != 1 || (!thorough && !sparse) {
+			continue
+		}
+		k := sp.c01Kind()
+		for _, ms := range [][]string{{k, c01Raw401}, {k, c01Dgram}, {c01AuthBad, k, c01Raw401}} {
+			add("1conn:"+strings.Join(ms, "+"), [][]string{ms}, false, explore.Bounds{P: 1}, explore.Bounds{P: 2})
+		}
+	}
 	// the NUMBER of rejected auth requests on one connection is a quantified input, not a constant:
 	// every count in 1..c01MaxRejected in one sequential run that judges the connection after each
 	// attempt, and an accepted attempt after N rejected ones (quick: N = every power of two up
@@ -500,6 +637,109 @@ func c01ManyRejected(e *vsched.Exec, n int, thenGood bool) {
 	if !thenGood {
 		judge(after + " and the end of the connection")
 	}
+	r.shutdown(true)
+}
+
+// c01NonAuthSpellings: for every spelling of the alphabet (c01Spellings: every combination of
+// methods x authorities x paths other than POST hysteria /auth itself, differing from it in at most
+// maxDev components) a NEW connection sends that
+// non-auth request with the accepted credential in Hysteria-Auth, then a 0x401 stream and a
+// datagram. Judged per connection with the property's clauses: the request is not answered 233 but
+// with the masquerade response (404, no Hysteria-* header); the stream is not served; no datagram is
+// received; nothing is dialled or logged for the connection. Finally the connection sends the REAL
+// auth request with the same credential: it is that request which authenticates it (the
+// authenticator is asked about it and the connection proxies from then on). (Added after the
+// independently seeded change C01-12: POST /auth to authority "hysteria:443", "HYSTERIA", ... was
+// evaluated as an authentication request.)
+func c01NonAuthSpellings(e *vsched.Exec, maxDev int) {
+	r := newRig(e, rigOpts{})
+	if r.srv == nil {
+		return
+	}
+	spellings := c01Spellings(maxDev)
+	for i, sp := range spellings {
+		name := fmt.Sprintf("S%d", i)
+		what := fmt.Sprintf("the non-auth request (method %q, authority %q, path %q) carrying accepted credentials", sp.Method, sp.Host, sp.Path)
+		cl := r.dial(name)
+		sconn := cl.Conn.Peer()
+		resp, err := cl.request(sp.Method, sp.Host, sp.Path, c01CredHeader("good"))
+		if err != nil {
+			e.Fail("%s failed: %v", what, err)
+			return
+		}
+		var hys []string
+		for k := range resp.Header {
+			if strings.HasPrefix(strings.ToLower(k), "hysteria-") {
+				hys = append(hys, k)
+			}
+		}
+		sort.Strings(hys)
+		if resp.Status == protocol.StatusAuthOK {
+			e.Fail("%s got 233", what)
+			return
+		}
+		if resp.Status != 404 || len(hys) != 0 {
+			e.Fail("%s was answered with status %d and Hysteria headers %v instead of the masquerade response (status 404)", what, resp.Status, hys)
+			return
+		}
+		str, err := cl.rawTCP("t-" + name + ":80")
+		if err == nil {
+			if ok, msg, rerr := protocol.ReadTCPResponse(str); rerr == nil || str.ReadTotal > 0 {
+				e.Fail("(a/d) a connection that sent only %s received a proxy reply (%v, %q) on a 0x401 stream", what, ok, msg)
+				return
+			}
+			str.CancelRead(0)
+		}
+		_ = cl.dgram(1, "u-"+name+":53", []byte("d"))
+		e.WaitIdle()
+		for _, ev := range r.Events {
+			tag := ev.A
+			if ev.Kind == "tcpreq" || ev.Kind == "udpreq" {
+				tag = ev.B
+			}
+			switch ev.Kind {
+			case "tcp", "udp", "checkudp", "udpwrite", "tcpreq", "udpreq":
+				if strings.HasPrefix(tag, "t-"+name+":") || strings.HasPrefix(tag, "u-"+name+":") {
+					e.Fail("(a) %v happened on a connection that sent only %s and no auth request", ev, what)
+					return
+				}
+			}
+		}
+		if sconn.RecvDatagramCalls != 0 {
+			e.Fail("(d) ReceiveDatagram issued on a connection that sent only %s and no auth request", what)
+			return
+		}
+		// the real auth request authenticates
+		before := len(r.Events)
+		if resp, err := cl.auth("good", 0); err != nil || resp.Status != protocol.StatusAuthOK {
+			e.Fail("valid credentials after %s got %v %v", what, resp, err)
+			return
+		}
+		asked := false
+		for _, ev := range r.Events[before:] {
+			if ev.Kind == "auth" && ev.Conn == cl.Addr() && ev.A == "good" && ev.OK {
+				asked = true
+			}
+		}
+		if !asked {
+			e.Fail("the auth request after %s was answered 233 without the authenticator's verdict on it", what)
+			return
+		}
+		if str, err := cl.rawTCP("t-" + name + "-accepted:80"); err != nil {
+			e.Fail("accepted after %s, the connection does not open a proxy stream: %v", what, err)
+			return
+		} else {
+			if ok, msg, err := protocol.ReadTCPResponse(str); err != nil || !ok {
+				e.Fail("accepted after %s, a TCP request got (%v, %q, %v) instead of a Connected response", what, ok, msg, err)
+				return
+			}
+			str.CancelRead(0)
+			_ = str.Close()
+		}
+		cl.close()
+		e.WaitIdle()
+	}
+	e.Logf("spellings=%d events=%d", len(spellings), len(r.Events))
 	r.shutdown(true)
 }
 
